@@ -396,3 +396,93 @@ def ob_reentrant_render(n: int, at: int, kn: int) -> bool:
 OBLIGATIONS.append(Ob('reentrant_render', ob_reentrant_render, ['0 <= n < 3', '0 <= at < 3', '0 <= kn < 3'], timeout=tier(200, 600), path_timeout=60, data='-',
                       selectors='outer length 1..3, position whose element renders children, child length 1..3; nested rendering by the same object vs by a twin object (unbatched and batched loops)',
                       stubs='runs untraced once the selectors are fixed on the path'))
+
+
+# ---------------------------------------------------------------- wave 5
+def ob_call_inputs_do_not_stick(o1: int, o2: int, o3: int, withvar: bool) -> bool:
+    """what one call passes (keyword arguments, mapping, client) belongs to that call: later calls with fewer inputs fall back to the
+    template's own variables / defaults, the template's _vars and globals stay as they were, and its pickled state never contains them"""
+    ops = [pick(o, 5) for o in (o1, o2, o3)]
+    wv = bool(withvar)
+    with NoTracing():
+        t = HTML('<dtml-var name>|<dtml-var shout missing="-">|<dtml-var d>', d='dflt', name='world')
+        if wv:
+            t.var(shout='quiet')
+        vars0, glob0 = copy.deepcopy(t._vars), copy.deepcopy(t.globals)
+        base_shout = 'quiet' if wv else '-'
+        for n, op in enumerate(ops + [0]):
+            if op == 0:
+                out, exp = t(), 'world|%s|dflt' % base_shout
+            elif op == 1:
+                out, exp = t(name='Bob%d' % n, shout='HEY'), 'Bob%d|HEY|dflt' % n
+            elif op == 2:
+                out, exp = t(None, {'name': 'Eve', 'd': 'md'}), 'Eve|%s|md' % base_shout
+            elif op == 3:
+                c = XC()
+                c.name, c.shout = 'Cli', 'cs'
+                out, exp = t(c), 'Cli|%s|dflt' % ('quiet' if wv else 'cs')
+            else:
+                t = pickle.loads(pickle.dumps(t))
+                continue
+            if out != exp or t._vars != vars0 or t.globals != glob0:
+                return False
+            if b'Bob' in pickle.dumps(t) or b'HEY' in pickle.dumps(t):
+                return False
+        return True
+
+
+class XC:
+    pass
+
+
+OBLIGATIONS.append(Ob('call_inputs_do_not_stick', ob_call_inputs_do_not_stick, ['0 <= o%d < 5' % i for i in (1, 2, 3)], timeout=tier(200, 600), path_timeout=60, data='-',
+                      selectors='histories of 3 operations over one template with defaults (and optionally var() values): render bare / with keywords / with a mapping / with a client / pickle round trip',
+                      stubs='runs untraced once the selectors are fixed on the path'))
+
+
+def ob_failed_first_use(kind: int, n: int) -> bool:
+    """a first use that FAILS (syntax error in the source, file missing) leaves the template as it was: every later use fails the same
+    way, and once the cause is repaired (file created) it renders like a new template"""
+    k = pick(kind, 4)
+    reps = pick(n, 3) + 1
+    with NoTracing():
+        if k < 2:
+            t = (HTML('a<dtml-if x>b') if k == 0 else String('a%(if x)[b'))
+            fresh_exc = None
+            try:
+                (HTML('a<dtml-if x>b') if k == 0 else String('a%(if x)[b'))(x=1)
+            except Exception as e:           # noqa: B902
+                fresh_exc = type(e)
+            for _ in range(reps + 1):
+                try:
+                    t(x=1)
+                    return False
+                except Exception as e:       # noqa: B902
+                    if type(e) is not fresh_exc:
+                        return False
+            return True
+        d = tempfile.mkdtemp(prefix='c17f_')
+        path = os.path.join(d, 't.dtml')
+        try:
+            t = (HTMLFile if k == 2 else File)(path)
+            for _ in range(reps):
+                try:
+                    t(x='X')
+                    return False
+                except (OSError, IOError):
+                    pass
+            with open(path, 'w') as f:
+                f.write('<dtml-var x>|late' if k == 2 else '%(x)s|late')
+            return t(x='X') == 'X|late' and pickle.loads(pickle.dumps(t))(x='Y') == 'Y|late'
+        finally:
+            try:
+                if os.path.exists(path):
+                    os.unlink(path)
+                os.rmdir(d)
+            except OSError:
+                pass
+
+
+OBLIGATIONS.append(Ob('failed_first_use', ob_failed_first_use, ['0 <= kind < 4', '0 <= n < 3'], timeout=tier(150, 400), path_timeout=60, data='-',
+                      selectors='HTML / String source with a syntax error used 2-4 times; HTMLFile / File whose file does not exist for the first 1-3 uses and is created afterwards',
+                      stubs='runs untraced; temporary file under the system temp dir, removed afterwards'))
